@@ -325,10 +325,47 @@ def build_join_step(ck, v6, src, obs=None):
             "reach": {"reach_ok": z3.And(pc, okk), "reach_denied": z3.And(pc, z3.Not(okk))}}
 
 
+def build_limiter_new(ck, src, obs=None):
+    """JoinRateLimiter::new wires the configuration into four engines: per-/64, per-/48, per-/24 with a one-hour window and
+    burst = max = the configured per-hour number; global with a one-minute window, max = per-minute number, burst = configured burst"""
+    eng = ck.engine() if obs is None else ck.meta_engine()
+    cfg5 = [src.bv(n, 32) for n in ("cfg.per64", "cfg.per48", "cfg.per24", "cfg.gmax", "cfg.gburst")]
+    hyps = list(src.hyps)
+    want = {"e64": (3600, cfg5[0], cfg5[0]), "e48": (3600, cfg5[1], cfg5[1]), "e24": (3600, cfg5[2], cfg5[2]), "eg": (60, cfg5[3], cfg5[4])}
+    if obs is None:
+        st = State()
+        config = VStruct(cfg5, "JoinRateLimiterConfig")
+        st1, L = eng.call(ck.fn_in("JoinRateLimiter", "new"), [config], st)
+        pc = st1.pc
+        got = {}
+        for i, n in enumerate(["e64", "e48", "e24", "eg"]):
+            e = L.f[1 + i]
+            c = e.f[0]
+            m = e.f[2]
+            empty = z3.BoolVal(True) if (not isinstance(m, VMap) or m.present is None) else z3.Not(z3.Select(m.present, z3.BitVec("anykey." + n, m.ksort.size())))
+            got[n] = (c.f[0].f[0], c.f[0].f[1], c.f[1], c.f[2], e.f[1].f[0], e.f[1].f[2], empty)
+        cfg_kept = z3.And(*[x == y for x, y in zip(flatten(L.f[0]), cfg5)])
+    else:
+        pc = z3.BoolVal(True)
+        got = {}
+        for n in ["e64", "e48", "e24", "eg"]:
+            o = obs[n]
+            got[n] = (bv(int(o["window_s"]), 64), bv(int(o["window_ns"]), 32), bv(int(o["max"]), 32), bv(int(o["burst"]), 32),
+                      z3.simplify(z3.fpBVToFP(bv(int(o["global_tokens"]), 64), F64)), bv(int(o["global_riw"]), 32), z3.BoolVal(int(o["keys"]) == 0))
+        cfg_kept = z3.And(*[bv(int(x), 32) == c for x, c in zip(obs["config"], cfg5)])
+    G = {}
+    for n, (w, mx, bu) in want.items():
+        ws, wns, gmax, gburst, gtok, griw, empty = got[n]
+        G[f"engine_{n}_gets_its_window_and_budget_from_the_right_configuration_field"] = z3.And(ws == bv(w, 64), wns == 0, gmax == mx, gburst == bu)
+        G[f"engine_{n}_starts_empty"] = z3.And(empty, griw == 0, z3.fpLEQ(gtok, fp_of_uint(bu)))
+    G["configuration_is_kept"] = cfg_kept
+    return {"eng": eng, "hyps": hyps, "goals": {g: z3.Implies(pc, f) for g, f in G.items()}, "reach": {"reach_end": pc}}
+
+
 def register(ck, tag, driver, params, builder):
     src = Src()
     R = builder(src, None)
-    rp = harness.make_replayer(ck, "rate_limit", driver, lambda s, obs: builder(s, obs), params, race_driver=("engine_key_race" if driver != "bucket_step" else None))
+    rp = harness.make_replayer(ck, "rate_limit", driver, lambda s, obs: builder(s, obs), params, race_driver=("engine_key_race" if driver not in ("bucket_step", "limiter_new") else None))
     ck.register_src(driver, params, src)
     prefs = clock_freeze_pref(R["eng"])
     for g, f in R["goals"].items():
@@ -336,12 +373,14 @@ def register(ck, tag, driver, params, builder):
     for g, f in R["reach"].items():
         ck.reach(f"{tag}/{g}", R["eng"], R["hyps"], f)
     ck.side(f"{tag}/side", R["eng"], R["hyps"], on_sat=rp)
-    if driver != "bucket_step":
+    if driver not in ("bucket_step", "limiter_new"):
         ck.single_critical_section(tag, R["eng"], R["hyps"], on_sat=rp)
     ck.out.samples.append({"obligation": tag, "goals": list(R["goals"])})
 
 
 def builder_for(ck, driver, params):
+    if driver == "limiter_new":
+        return lambda s, obs: build_limiter_new(ck, s, obs)
     if driver == "bucket_step":
         return lambda s, obs: build_bucket_step(ck, params["window_s"], s, obs)
     if driver == "engine_key":
@@ -360,6 +399,7 @@ def run(tier):
         pp = {"v6": v6}
         t = "join_step[v6]" if v6 else "join_step[v4]"
         ck.guarded(t, lambda pp=pp, t=t: register(ck, t, "join_step", pp, builder_for(ck, "join_step", pp)))
+    ck.guarded("limiter_new", lambda: register(ck, "limiter_new", "limiter_new", {}, builder_for(ck, "limiter_new", {})))
     ck.run_queries()
     import kanicheck
 
